@@ -457,6 +457,6 @@ def main(tier):
                        'int and assumed not to overflow (n, m <= 256 in every documented use).')
     rep.trusted = ['clang 14 IR, opt-14 scalar evolution', 'tools/scev.py parser (fails closed on unknown syntax)']
     A = scev.analysis('default')
-    check_generators(rep, A)
-    check_invert(rep, A)
+    rep.attempt(check_generators, rep, A)
+    rep.attempt(check_invert, rep, A)
     return rep.finish()
